@@ -25,7 +25,7 @@ type Profile struct {
 }
 
 func weighted(w map[string]int) []string {
-	order := []string{"resolve", "reserr", "state", "pick", "done", "adv", "failnew", "cancel", "allready", "bindflow", "decall", "readyrepl", "staledown", "emptypool", "saturate", "refreshcycle", "stalede", "affswap", "fbflow", "bindacross", "growmax", "multibind"}
+	order := []string{"resolve", "reserr", "state", "pick", "done", "adv", "failnew", "cancel", "allready", "bindflow", "decall", "readyrepl", "staledown", "emptypool", "saturate", "refreshcycle", "stalede", "affswap", "fbflow", "bindacross", "growmax", "multibind", "fillwm"}
 	var out []string
 	for _, k := range order {
 		for i := 0; i < w[k]; i++ {
@@ -246,6 +246,20 @@ func genStep(p *Profile, cfg *Config) *rapid.Generator[[]Op] {
 				ops = append(ops, Op{K: "pick", M: rapid.SampledFrom([]int{2, 2, 5}).Draw(t, "mm"), Key: k}, Op{K: "pick", M: 2, Key: k})
 			}
 			return ops
+		case "fillwm":
+			// load one channel right up to a large watermark: the next call must still be placed there
+			n := cfg.WM
+			if n == 0 {
+				n = 100
+			}
+			if n < 5 || n > 300 {
+				return []Op{{K: "pick", M: 0}}
+			}
+			var ops []Op
+			for i := 0; i < n-1; i++ {
+				ops = append(ops, Op{K: "pick", M: 0})
+			}
+			return append(ops, Op{K: "pick", M: 0}, Op{K: "pick", M: 0})
 		case "growmax":
 			// keep calls open and bring every new channel up until the pool cannot grow any more
 			per := cfg.WM
@@ -282,6 +296,10 @@ func GenCase(t *rapid.T, p *Profile) *Case {
 		cfg.Min = rapid.IntRange(0, 6).Draw(t, "min")
 		cfg.Max = rapid.IntRange(0, 6).Draw(t, "max")
 		cfg.WM = rapid.IntRange(0, 4).Draw(t, "wm")
+		if p.CfgOps && rapid.IntRange(0, 7).Draw(t, "bigwm") == 0 {
+			cfg.WM = rapid.SampledFrom([]int{99, 100, 101, 150}).Draw(t, "wmbig")
+			cfg.Min, cfg.Max = 1, rapid.SampledFrom([]int{0, 1, 2}).Draw(t, "maxbig")
+		}
 	} else {
 		cfg.Min = rapid.IntRange(p.Min[0], p.Min[1]).Draw(t, "min")
 		lo := p.Max[0]
@@ -355,5 +373,5 @@ var Profiles = map[string]*Profile{
 	"addresses": {Name: "addresses", Min: [2]int{1, 3}, Max: [2]int{1, 4}, WM: []int{1, 2}, UdMs: []int64{7, 100}, UdCalls: []int{1}, Strict: 30, Shutdown: true,
 		W: map[string]int{"resolve": 12, "reserr": 4, "state": 6, "pick": 10, "done": 5, "adv": 1, "allready": 3, "decall": 12, "readyrepl": 8, "saturate": 5, "failnew": 1, "refreshcycle": 4}, Methods: []int{0, 0, 2}},
 	"cfg": {Name: "cfg", Wild: true, WM: []int{1}, Fallback: 30, UdMs: []int64{0, 7}, UdCalls: []int{0, 1}, RR: 20, Strict: 30, CfgOps: true, NoFirst: 30,
-		W: map[string]int{"resolve": 5, "state": 8, "pick": 22, "done": 8, "adv": 1, "allready": 5, "bindflow": 8, "decall": 2, "readyrepl": 2, "saturate": 8, "growmax": 4}, Methods: append(append([]int{}, hostileMethods...), 10, 10, 11, 12)},
+		W: map[string]int{"resolve": 5, "state": 8, "pick": 22, "done": 8, "adv": 1, "allready": 5, "bindflow": 8, "decall": 2, "readyrepl": 2, "saturate": 8, "growmax": 4, "fillwm": 2}, Methods: append(append([]int{}, hostileMethods...), 10, 10, 11, 12)},
 }
